@@ -10,15 +10,18 @@
 if [ "${1:-}" = "--clean" ]; then rm -rf /root/ns; exit 0; fi
 SLOT="$1"; P="$2"; ID="$3"; T="${4:-quick}"
 S=/root/ns/$SLOT
+# where the copies are taken from: the live trees, or a snapshot of them (tools/ns_snapshot.sh) so that a long
+# regression is not disturbed by work going on in /repo and /verif
+RSRC="${NS_REPO_SRC:-/repo}"; VSRC="${NS_VERIF_SRC:-/verif}"
 mkdir -p "$S/repo" "$S/verif"
 # no -t: a file that differs is rewritten with a fresh mtime, so cargo sees it as changed in either direction
-rsync -rlpgoD --checksum --delete --exclude target /repo/ "$S/repo/"
+rsync -rlpgoD --checksum --delete --exclude target "$RSRC/" "$S/repo/"
 if [ ! -d "$S/verif/target" ]; then
     # seed the build cache once (same absolute paths inside the namespace => fingerprints stay valid)
     rsync -a /verif/target/ "$S/verif/target/" --exclude run --exclude scratch
     rsync -a /verif/target-repo/ "$S/verif/target-repo/"
 fi
-rsync -rlpgoD --checksum --delete --exclude target --exclude target-repo --exclude replays --exclude .git --exclude seeded /verif/ "$S/verif/"
+rsync -rlpgoD --checksum --delete --exclude target --exclude target-repo --exclude replays --exclude .git --exclude seeded "$VSRC/" "$S/verif/"
 if [ "$P" != "-" ]; then
     case "$P" in /*) ;; *) P="/verif/$P";; esac
     if ! git -C "$S/repo" apply --check "$P" 2>/dev/null; then echo "== $P on $ID ($T): PATCH-DOES-NOT-APPLY"; exit 3; fi
